@@ -262,12 +262,17 @@ def c15_driver(a, col):
         {"fam": "pol", "type": "RX", "theta": 2.2},
         {"fam": "comp", "type": "NonPolarizingBeamSplitter", "eta": 0.3},
         {"fam": "fock", "type": "Creation"},
+        # fixed-size custom operators of other sizes than anything the program uses: only constructed, never applied
+        {"fam": "fock", "type": "Custom", "operator": c2j(np.eye(7))},
+        {"fam": "fock", "type": "Custom", "operator": c2j(np.eye(1))},
+        {"fam": "custom", "type": "Custom", "operator": c2j(np.eye(5))},
+        {"fam": "pol", "type": "Custom", "operator": c2j(np.array([[0, 1], [1, 0]]))},
     ]
     while time.time() - t0 < a.budget:
         rng = np.random.default_rng([a.seed, pidx, a.shard, prog])
         prog += 1
         nsteps = int(rng.integers(5, 12))
-        opts = {"approx_ops": False, "op_reuse": 0.45, "weights": {"config": 0, "measure": 0.3, "povm": 0.2, "kraus": 0.5, "apply1": 8, "applyc": 6,
+        opts = {"approx_ops": False, "op_reuse": 0.45, "reuse_custom": True, "refuse_reuse": 0.3, "weights": {"config": 0, "measure": 0.3, "povm": 0.2, "kraus": 0.5, "apply1": 8, "applyc": 6,
                                                    "resize": 1.0, "combine": 1.0}}
         try:
             decl, steps, A = gen_program(rng, "ops", a.tier, opts, bool(rng.random() < 0.5), nsteps, op_reuse=True)
@@ -295,7 +300,9 @@ def c15_driver(a, col):
             sp = scratch_specs[int(rng.integers(0, len(scratch_specs)))]
             try:
                 op = opspec.build_operation(sp)
-                if sp["fam"] == "pol":
+                if sp["type"] == "Custom" and sp["fam"] != "pol":
+                    _ = op
+                elif sp["fam"] == "pol":
                     from photon_weave.state.polarization import Polarization
                     Polarization().apply_operation(op)
                 elif sp["fam"] == "fock" and sp["type"] != "Displace":
